@@ -555,6 +555,8 @@ class ActionTypeHint(Action):
         islist = _is_action_value_list(self)
         if not islist:
             value = [value]
+        elif isinstance(value, list):
+            value = list(value)  # the given list belongs to the caller
         for num, val in enumerate(value):
             try:
                 orig_val = val
